@@ -60,6 +60,8 @@ INT_RANGE = {'u8': (0, 255), 'u16': (0, 65535), 'u32': (0, 2**32 - 1), 'u64': (0
 
 def m_parse(ex, args, callee):
     ty = re.search(r'parse::<(\w+)>', callee).group(1)
+    wide = {'usize': 'u64', 'isize': 'i64'}
+    if ty in wide: ty = wide[ty]
     s = dv(args[0])
     if isinstance(s, NumStr) and ty in INT_RANGE:
         lo, hi = INT_RANGE[ty]
